@@ -905,5 +905,74 @@ Section PSC.
           lra. }
         lia.
     Qed.
+
+    Lemma elim_map_fst seats (el0 : list (C * Z)) :
+      (forall c s, In (c, s) el0 -> dget caps c = Some 1%Z /\ (1 <= s)%Z /\ (0 <= dget_or seats c 0)%Z) ->
+      flat_map (fun cs : C * Z => match dget caps (fst cs) with
+                                  | Some m => if (m <=? snd cs + dget_or seats (fst cs) 0)%Z then [fst cs] else []
+                                  | None => [] end) el0 = map fst el0.
+    Proof.
+      induction el0 as [|[c s] el0 IH]; intros H; [reflexivity|]. cbn [flat_map map fst snd].
+      destruct (H c s (or_introl eq_refl)) as (H1 & H2 & H3). rewrite H1.
+      assert ((1 <=? s + dget_or seats c 0)%Z = true) as -> by (apply Z.leb_le; lia).
+      cbn [app]. f_equal. apply IH. intros c0 s0 Hin. apply H. right. exact Hin.
+    Qed.
+
+    Lemma in_play_keys a : map fst (in_play a) = keys_some a.
+    Proof.
+      unfold in_play, some_totals, totals, keys_some. induction a as [|[k0 p] a IH]; [reflexivity|].
+      cbn [map flat_map fst snd]. rewrite map_app, IH. destruct k0; reflexivity.
+    Qed.
+
+    Lemma totals_of_pile a c p : In (Some c, p) a -> In (Some c, pile_sum p) (totals a).
+    Proof. intros H. unfold totals. apply in_map_iff. exists (Some c, p). split; [reflexivity|exact H]. Qed.
+
+    (* the invariant survives every count *)
+    Theorem next_count_psc a seats a' el : Inv a seats ->
+      next_count cf a n total seats caps = CR_next a' el -> Inv a' (add_seats seats el).
+    Proof.
+      intros I Hn.
+      destruct (next_count_conserves cf a n total seats caps a' el (i_nd _ _ I) (i_sn _ _ I)) as (N1 & N2 & N3);
+        [intros qv Hqv; rewrite quota_is in Hqv; injection Hqv as <-; exact Hq|exact Hn|].
+      rewrite quota_is in N3. revert Hn. unfold next_count. cbv zeta.
+      destruct (negb _ && _ && _); [discriminate|].
+      rewrite Hqf, Htot, Hn0. cbn [orb]. fold q.
+      destruct (elect_by_quota cf (totals a) (Some q) _ seats caps) as [[el0|]|s] eqn:Ee; [| |discriminate].
+      - destruct (subtract a _) as [a1|] eqn:Es; [|discriminate].
+        destruct (elect_by_quota_sound cf q Hq a _ seats caps el0 (i_nd _ _ I) (i_sn _ _ I) Ee) as [Hk Hs].
+        pose proof (ebq_cap1 cf q a _ seats caps el0 (i_caps _ _ I) (i_sn _ _ I) Ee) as Hc1.
+        assert (Hel : forall c s, In (c, s) el0 -> s = 1%Z /\ exists p, alloc_get a (Some c) = Some p /\ inject_Z s * q <= wsum p).
+        { intros c s Hin. destruct (Hs c s Hin) as [Hp Hex]. pose proof (Hc1 c s Hin). split; [lia|exact Hex]. }
+        rewrite (elim_map_fst seats el0).
+        2:{ intros c s Hin. destruct (Hel c s Hin) as (-> & p & Hg & _). split; [|split; [lia|apply (i_sn _ _ I)]].
+            apply (i_caps _ _ I). apply keys_some_akeys. unfold akeys. apply in_map_iff. exists (Some c, p).
+            split; [reflexivity|apply alloc_get_in, Hg]. }
+        destruct el0 as [|e0 r0].
+        + cbn [map]. cbn [subtract map] in Es. injection Es as <-. intros [= <- <-]. exact I.
+        + cbn [map]. intros [= <- <-]. apply (step_elect a seats (e0 :: r0) a1 I Hel Hk Es). exact N3.
+      - destruct (existsb _ _) eqn:Etie; [discriminate|].
+        match goal with |- context [transfer a ?e] => set (elim := e) end.
+        assert (Hdef : elim = eliminated cf a) by reflexivity.
+        assert (Hlt : forall c p, In (Some c, p) a -> wsum p < q).
+        { intros c p Hin. rewrite <- pile_sum_wsum.
+          apply (ebq_none cf q a (n - zsum (map snd seats))%Z seats caps Hae Hq) with (c := c); [|exact Ee|apply totals_of_pile, Hin].
+          intros c0 Hc0. split; [apply (i_caps _ _ I), Hc0|apply dget_or_notin, (i_disj _ _ I), Hc0]. }
+        assert (HE : incl elim (keys_some a)).
+        { rewrite Hdef. unfold eliminated. rewrite in_play_keys. intros x Hx. apply filter_In in Hx. tauto. }
+        assert (Hnde : NoDup elim).
+        { rewrite Hdef. unfold eliminated. rewrite in_play_keys. apply NoDup_filter_c, keys_some_nodup, (i_nd _ _ I). }
+        assert (Hlen : (length elim <= 1)%nat).
+        { rewrite Hdef. destruct (in_play a) as [|x0 l0] eqn:Eip.
+          - unfold eliminated. rewrite Eip. simpl. lia.
+          - assert (Hm : (1 <= length (in_play a))%nat) by (rewrite Eip; simpl; lia).
+            assert (Hneg : (c_step cf < 0)%Z) by (rewrite Hstep; lia).
+            destruct (retained_count_neg cf (length (in_play a)) Hneg Hm) as [Hrc Hd].
+            rewrite (eliminated_count cf a); [| |exact Etie|exact Hrc].
+            + rewrite Hd. rewrite Hstep. change (Z.to_nat (- -1)) with 1%nat. lia.
+            + rewrite in_play_keys. apply keys_some_nodup, (i_nd _ _ I). }
+        destruct elim as [|e es] eqn:Eel.
+        + intros [= <- <-]. exact I.
+        + intros [= <- <-]. apply (step_elim a seats (e :: es) I Hlt HE Hnde Hlen).
+    Qed.
   End RUNPSC.
 End PSC.
